@@ -2,6 +2,7 @@ CONSTANTS
   T = {1,2}
   Configs <- cDemo
   Variant = "load"
+  VariantE = "load"
   OrdCloneInc = "Relaxed"
   OrdDropDec = "Release"
   OrdDropFence = "Acquire"
